@@ -13,6 +13,7 @@ package client
 import (
 	"encoding/json"
 	"regexp"
+	"strconv"
 	"strings"
 	"sync"
 	"time"
@@ -408,10 +409,22 @@ func getBool(v any) (bool, error) {
 	}
 }
 
+// fastjsonFloat64 returns the correctly rounded float64 of a JSON number.
+//
+// fastjson's own number parser is not correctly rounded for all spellings (for example
+// `1.23456789e+05` yields 123456.78899999999), which would make the stored value - and the
+// docID - depend on how a number is spelled.
+func fastjsonFloat64(val *fastjson.Value) (float64, error) {
+	if val.Type() != fastjson.TypeNumber {
+		return val.Float64()
+	}
+	return strconv.ParseFloat(string(val.MarshalTo(nil)), 64)
+}
+
 func getFloat64(v any) (float64, error) {
 	switch val := v.(type) {
 	case *fastjson.Value:
-		return val.Float64()
+		return fastjsonFloat64(val)
 	case int:
 		return float64(val), nil
 	case int32:
@@ -432,7 +445,7 @@ func getFloat64(v any) (float64, error) {
 func getFloat32(v any) (float32, error) {
 	switch val := v.(type) {
 	case *fastjson.Value:
-		f64, err := val.Float64()
+		f64, err := fastjsonFloat64(val)
 		if err != nil {
 			return 0, err
 		}
